@@ -55,7 +55,9 @@ pub const S7: &[&str] = &[
 ];
 
 pub const DL_FAMILY: &[&str] = &[
-    "datalines", "datalines4", "cards", "cards4", "lines", "lines4", ";", "\n", " ", "a", ";;;;", "x", "/*c*/", "4",
+    "datalines", "datalines4", "cards", "cards4", "lines", "lines4", ";", "\n", " ", "a", ";;;;", "x", "/*c*/", "4", "\u{b}", "\u{a0}",
+    // a complete block, so that what follows it is within reach
+    "cards;\n1\n;", "*",
 ];
 
 pub const S8: &[&str] = &[
@@ -322,7 +324,7 @@ pub const ALIAS_ATOMS: &[&str] = &[
     "\u{42e}", "\u{42f}", "\u{43b}", "\u{43d}", " ", "a", "%m", "&v", ";", "1",
     // line-break and blank look-alikes that are not '\n' / ' ': lone CR, form feed, NEL, LINE
     // SEPARATOR; a combining mark and a zero-width space (neither blank nor name character)
-    "\r", "\u{c}", "\u{85}", "\u{2028}", "\u{301}", "\u{200b}",
+    "\r", "\u{c}", "\u{85}", "\u{2028}", "\u{301}", "\u{200b}", "\u{b}",
 ];
 
 pub fn alias_spaces(n: usize) -> Vec<Space> {
